@@ -71,6 +71,7 @@ def shapes(spec):
         ("row-slice-2d", {"$w2d": [n, 0, 1, 0, C]}, C, (1, C)),
         ("block-2d", {"$w2d": [n, 0, min(2, R), 0, min(2, C)]}, min(2, R) * min(2, C), (min(2, R), min(2, C))),
         ("nested-list-2d", {"$a": [[ids[r][c] for c in range(min(2, C))] for r in range(min(2, R))]}, min(2, R) * min(2, C), (min(2, R), min(2, C))),
+        ("fortran-2d", {"$af": [[ids[r][c] for c in range(C)] for r in range(R)]}, R * C, (R, C)),
     ]
     if g.is_trough and R > 1:
         out.append(("alias-pair", [ids[0][0], ids[1][0]], 2, None))
@@ -91,6 +92,7 @@ def volume_args(k, shape2d, base, zero=False):
     if shape2d:
         r, c = shape2d
         out.append({"$a": [[vals[i * c + j] for j in range(c)] for i in range(r)]})
+        out.append({"$af": [[vals[i * c + j] for j in range(c)] for i in range(r)]})
     return out
 
 
